@@ -39,3 +39,59 @@ CREATE_LAZY = f"{PLAN}.Plan._create_lazy_zarr_arrays"
 COMPUTE = f"{ARRAY}.compute"
 CORE_COMPUTE = f"{ARRAY}.CoreArray.compute"
 DAG_EXECUTOR = f"{RT_TYPES}.DagExecutor"
+
+
+# Private helpers (and module-internal functions) the rules are anchored in.  If one of them
+# is moved inside the package, turned from a method into a function (or back), or gains/loses
+# its leading underscore, the index files it under the name below (index.Repo._relocated);
+# anything else that vanishes is an ANALYSIS-ERROR.
+RELOCATABLE = [
+    f"{PLAN}.Plan._find_ops_exceeding_memory",
+    f"{PLAN}.Plan._create_lazy_zarr_arrays",
+    f"{PLAN}.Plan._compile_blockwise",
+    f"{PLAN}.FinalizedPlan._calculate_stats",
+    f"{PLAN}.already_computed",
+    f"{PLAN}.create_zarr_array",
+    f"{PLAN}.create_zarr_arrays",
+    f"{PLAN}.intermediate_store",
+    f"{PLAN}.delete_on_exit",
+    f"{RT_PIPE}.skip_node",
+    f"{RT_ASYNC}.pipeline_to_stream",
+    f"{OPS}._store_array",
+    f"{OPS}._general_blockwise",
+    f"{OPS}._partial_reduce",
+    f"{OPS}._rechunk",
+    f"{OPS}.split_chunks",
+    f"{OPS}.split_chunksizes",
+    f"{PBW}._map_nested_impl",
+    f"{PBW}._apply_blockwise_key_func_to_chunk_key",
+    f"{PBW}.apply_blockwise_key_func",
+    f"{PBW}.apply_blockwise_func",
+    f"{PBW}.peak_projected_mem",
+    f"{PBW}.can_fuse_multiple_primitive_ops",
+    f"{PBW}.fuse_blockwise_specs",
+    f"{PBW}.get_chunk",
+    f"{RANDOM}._random",
+    f"{CREATION}._like_args",
+    f"{RT_LOCAL}.unpickle_and_call",
+    f"{RT_LOCAL}.threads_create_futures_func",
+    f"{RT_LOCAL}.processes_create_futures_func",
+    f"{RT_BACKUP}.should_launch_backup",
+    f"{ARRAY}.check_array_specs",
+    f"{OPT}.can_fuse_predecessors",
+    f"{OPT}.fuse_predecessors",
+    f"{OPT}.predecessor_ops_and_arrays",
+]
+
+# Renamed private helpers are found by the role they play: {anchor: (stable caller, strings that
+# must all occur in the candidate's AST dump)}.  Exactly one private / same-module callee of the
+# caller must match, otherwise the anchor stays missing (ANALYSIS-ERROR).
+ROLE_OF = {
+    f"{PLAN}.Plan._find_ops_exceeding_memory": (f"{PLAN}.Plan._finalize", ("projected_mem", "allowed_mem")),
+    f"{RT_PIPE}.skip_node": (f"{RT_PIPE}.visit_nodes", ("'pipeline'", "'computed'")),
+    f"{RT_ASYNC}.pipeline_to_stream": (f"{RT_ASYNC}.async_map_dag", ("async_map_unordered", "mappable")),
+    f"{OPS}._store_array": (f"{OPS}.store", ("target_store", "region")),
+    f"{PLAN}.already_computed": (f"{PLAN}.FinalizedPlan.execute", ("nchunks_initialized",)),
+    f"{OPS}._partial_reduce": (f"{OPS}.partial_reduce", ("concat", "keepdims")),
+    f"{OPS}._general_blockwise": (f"{OPS}.general_blockwise", ("in_names", "target_names")),
+}
